@@ -351,6 +351,19 @@ func enumerate(cfg enumCfg, h *harness, disc *discovery) []group {
 			}
 		}
 	}
+	// L5r: the syntactic constructs (every group of L1-L3) once more, run from a compiled
+	// program that went through Program.Write and CompiledProgram
+	for _, g := range append([]group(nil), gs...) {
+		if g.Level == "L1-nobody" || g.Level == "L2-for" || g.Level == "L3-comprehension" {
+			if g.Case.Nest != "N1" && g.Case.Nest != "N3" {
+				continue
+			}
+			r := g
+			r.Level = "L5-builtin"
+			r.Case.Reloaded = true
+			gs = append(gs, r)
+		}
+	}
 	// L6: operators / receiver methods found to iterate the collection
 	for _, d := range disc.Ops {
 		fam := bestFamily(h, d.Kind, n, d.Tmpl)
